@@ -226,8 +226,11 @@ def _run_built(ctx: RunContext, built: dict, configs: list[dict], variables=None
                 raise
 
 
-def run_scenario(scn: dict) -> RunContext:
-    """Execute the scenario against the real ropt code; return the populated context."""
+def run_scenario(scn: dict, setup=None, shared: dict | None = None) -> RunContext:
+    """Execute the scenario against the real ropt code; return the populated context.
+
+    ``setup(ctx)`` is called once the evaluator exists (schedulers install their yield hooks
+    there); ``shared`` may carry a plug-in manager to re-use between runs."""
     warnings.simplefilter("ignore")
     ctx = RunContext(scn)
     try:
@@ -236,7 +239,14 @@ def run_scenario(scn: dict) -> RunContext:
         ctx.transforms = build_transforms(scn.get("transforms"))
         evaluator = SimEvaluator(world, scn.get("faults"), scn.get("mode"))
         ctx.evaluator = evaluator
-        pm = backend.make_plugin_manager()
+        if shared is not None and shared.get("pm") is not None:
+            pm = shared["pm"]
+        else:
+            pm = backend.make_plugin_manager()
+            if shared is not None:
+                shared["pm"] = pm
+        if setup is not None:
+            setup(ctx)
         ctx.fake = None
         if scn.get("fake") is not None:
             from . import fakescipy
